@@ -193,6 +193,7 @@ def run(M, rec, tier, seed, k, n):
                           {"desc": desc, "step": kk, "delta": now - sim["start"], "external": sim["ext"]})
 
     W.USER_KINDS["prob"] = 0.12  # user-defined origin / link kinds conserve vehicles too
+    W.TURNING_COUNTS["prob"] = 0.3  # raw small-integer turning counts as turn rates: shares still sum to one
     from vf import batched
 
     # the node split conserves vehicles column by column when evaluated for K instants at once
@@ -216,6 +217,7 @@ def run(M, rec, tier, seed, k, n):
             W.small_valid_steps(M, rec, rng, 4, k, n, before_case=before, seed=seed + 1, kinds_full=False, only_n=4)
     finally:
         W.USER_KINDS["prob"] = 0.0
+        W.TURNING_COUNTS["prob"] = 0.08
         mon.uninstall()
     if k == 0:
         W.repo_tests(rec, [PROP])
